@@ -65,6 +65,11 @@ KINDS = {
     "for_zip3_err": "try { for p in [[i]].iter().zip([1].iter(), [1].iter().map(|x| { raise Error('z3'); })) { } } catch e { }",
     "for_nested_zip_err": "try { for p in [[i]].iter().zip([1].iter().zip([1].iter().map(|x| { raise Error('zz'); }))) { } } catch e { }",
     "next_zip_err": "let it = [[i], 2].iter().zip([1, 2].iter().map(|x| { raise Error('z'); })); try { it.next(); } catch e { }",
+    # strings that are only held by a native's temporary root while a collection runs inside that native, and that stay alive afterwards
+    # (bounded: the result replaces the previous one): the intern table must still be exactly the live strings at the end
+    "strings_built_in_native": "let l = 4.times().map(|j| { if j == 2 { print('@@gc full'); } return 'sb' + j.str() + '-' + i.str(); }).list(); keep[0].x = l;",
+    "strings_built_in_native_nursery": "let l = 4.times().map(|j| { if j == 2 { print('@@gc nursery'); } return 'sn' + j.str() + '-' + i.str(); }).into(List.collect); keep[0].y = l;",
+    "strings_joined_in_reduce": "let s = 4.times().reduce('', |a, j| { if j == 2 { print('@@gc full'); } return a + 'r' + j.str(); }); keep[0].x = [s, 'r' + i.str()];",
     "regexp": "let r = RegExp('a' + i.str()); r.test('a1'); r.captures('a' + i.str());",
 }
 PRE = "import std.regexp:{RegExp};\nclass Holder { init() { self.x = nil; self.y = nil; } get() { return self.x; } }\nlet keep = [Holder(), 'live' + 'set', {1: [2]}, (3, 4), || 5];\nlet kc = chan(1); let ks = chan();\n"
